@@ -201,7 +201,10 @@ func runC18(c *fw.Ctx) {
 		}()
 		synctest.Test(theT, func(t *testing.T) {
 			pool.SimYield = s.yield
-			defer func() { pool.SimYield = nil }()
+			// when both select cases of the caller are ready, the simulator (not the runtime) decides
+			pref := 1
+			pool.SimSelect = func() int { return pref }
+			defer func() { pool.SimYield = nil; pool.SimSelect = nil }()
 			p := pool.NewPool(W)
 			type result struct {
 				vals []interface{}
@@ -304,6 +307,9 @@ func runC18(c *fw.Ctx) {
 					bad("step-bound", "scheduler step bound hit")
 					return
 				}
+				if strings.HasPrefix(rel[k].key, "c:before-select") {
+					pref = 1 + c.S.Draw(2, "select-preference")
+				}
 				s.release(rel[k])
 			}
 			// results
@@ -338,7 +344,11 @@ func runC18(c *fw.Ctx) {
 					if len(ps) == 0 {
 						return
 					}
-					s.release(ps[c.S.Draw(len(ps), "sched-drain")])
+					q := ps[c.S.Draw(len(ps), "sched-drain")]
+					if strings.HasPrefix(q.key, "c:before-select") {
+						pref = 1 + c.S.Draw(2, "select-preference")
+					}
+					s.release(q)
 					s.steps++
 				}
 			}
@@ -434,6 +444,11 @@ func TestWorker(t *testing.T) {
 		seed, _ := strconv.ParseInt(f[2], 10, 64)
 		n, _ := strconv.Atoi(f[3])
 		fw.PrintCase(p, f[1], seed, n)
+	case "digest":
+		seed, _ := strconv.ParseInt(f[2], 10, 64)
+		a, _ := strconv.Atoi(f[3])
+		b, _ := strconv.Atoi(f[4])
+		fw.PrintDigests(p, f[1], seed, a, b)
 	case "replay":
 		os.Exit(fw.ReplayMain(f[1]))
 	}
